@@ -1,7 +1,9 @@
 """Text writer to create text representation of wasm."""
 
 import io
+import math
 from .. import components
+from ..util import f32_to_bits, f64_to_bits
 from .util import default_alignment, bytes2datastring
 
 
@@ -220,6 +222,9 @@ class TextWriter:
                 )
         elif opcode == "select":
             args = (f"(result {t})" for t in args[0])
+        elif opcode in ("f32.const", "f64.const"):
+            if isinstance(args[0], float) and math.isnan(args[0]):
+                args = (nan2string(opcode, args[0]),)
         subtext = self._get_sub_string(args)
         if "\n" in subtext:
             return "(" + opcode + "\n" + subtext + "\n)"
@@ -300,3 +305,13 @@ class TextWriter:
     def finish(self):
         """Wrap up and return emitted text."""
         return self._f.getvalue()
+
+
+def nan2string(opcode, value):
+    """Give the text of a nan immediate, with its sign and payload"""
+    if opcode == "f32.const":
+        payload, quiet = f32_to_bits(value) & 0x7FFFFF, 1 << 22
+    else:
+        payload, quiet = f64_to_bits(value) & (1 << 52) - 1, 1 << 51
+    text = "nan" if payload == quiet else f"nan:0x{payload:x}"
+    return "-" + text if math.copysign(1, value) < 0 else text
